@@ -264,13 +264,33 @@ Definition array_addback_grow (d : adata) (capacity : nat) (arg : loc) : M adata
   data_reset d capacity (S (a_count d))
     (fun items => om_relocate_create (a_items d) 0 items 0 (a_count d) (items, Z.of_nat (a_count d)) arg).
 
+(* pvAddBackGrow(const Item&, true_type) (1065-1083), the path taken by nothrow-relocatable items: build the new item
+   in a stack buffer, grow, relocate the buffer to the end *)
+Definition array_addback_grow_nt (d : adata) (capacity : nat) (arg tmp : loc) : M adata :=
+  om_copy tmp arg ;;;
+  d' <- catch_rethrow (array_regrow d capacity) (om_destroy_n (fst tmp) (snd tmp) 1) ;;
+  om_relocate (fst tmp) (snd tmp) (a_items d') (Z.of_nat (a_count d)) 1 ;;;
+  ret (mkA (a_items d') (S (a_count d)) (a_cap d')).
+
+(* pvAddBackGrow(const Item&) tag dispatch (1059-1063, 1085-1088) *)
+Definition array_addback (d : adata) (capacity : nat) (arg tmp : loc) : M adata :=
+  if nothrow_reloc c then array_addback_grow_nt d capacity arg tmp else array_addback_grow d capacity arg.
+
 (* Data::pvDestroy (404-408) = ~Array *)
 Definition array_destroy (d : adata) : M unit :=
   om_destroy_n (a_items d) 0 (a_count d) ;;; data_deallocate d.
 
+(* an operation followed by the destruction of the array, whether the operation threw or not *)
+Definition array_op_then_destroy (d : adata) (op : M adata) : M unit := fun s =>
+  match op s with
+  | (Val d', s1) => array_destroy d' s1
+  | (Exc, s1) => match array_destroy d s1 with (Val _, s2) => (Exc, s2) | r => r end
+  | (Stuck, s1) => (Stuck, s1)
+  end.
+
 (* ------------------------------------------------------------------ HashSet copy constructor *)
 Record hset : Type := mkH { h_buckets : option (Z * Z); h_fill : nat }.   (* mBuckets -> (buffer block, params block); items in the buckets *)
-Variable bufsz parsz : Z.
+Variable bufsz parsz crewsz : Z.
 
 (* HashSetBuckets::Create (51-78) with bucketParams == nullptr *)
 Definition buckets_create : M (Z * Z) :=
@@ -313,14 +333,21 @@ Definition hs_copy_ctor (fixed : bool) (sr : Z) (n : nat) (s : rstate) : (hset *
     end
   end.
 
-(* the whole life of the copy: constructor, then (whether it threw or not) the destructor *)
+(* the whole life of the copy: the delegated-to constructor (allocates the crew: traits + version + manager; a throw
+   there means there is no object and no destructor), the body, then - whether the body threw or not - ~HashSet
+   (pvDestroy) followed by the crew's destructor *)
 Definition hs_copy_then_destroy (fixed : bool) (sr : Z) (n : nat) : M unit := fun s =>
-  match hs_copy_ctor fixed sr n s with
-  | ((h, Stuck), s1) => (Stuck, s1)
-  | ((h, o), s1) => match hs_pv_destroy h s1 with
-                    | (Val _, s2) => (o, s2)
-                    | (o', s2) => (o', s2)
-                    end
+  match p_alloc mgr crewsz s with
+  | (Val crew, s0) =>
+      match hs_copy_ctor fixed sr n s0 with
+      | ((h, Stuck), s1) => (Stuck, s1)
+      | ((h, o), s1) => match (hs_pv_destroy h ;;; p_dealloc mgr crew crewsz) s1 with
+                        | (Val _, s2) => (o, s2)
+                        | (o', s2) => (o', s2)
+                        end
+      end
+  | (Exc, s0) => (Exc, s0)
+  | (Stuck, s0) => (Stuck, s0)
   end.
 
 (* ------------------------------------------------------------------ TreeSet copy constructor (root is a leaf) *)
@@ -375,12 +402,17 @@ Definition ts_copy_ctor (fixed : bool) (sr : Z) (n : nat) (s : rstate) : (tset *
   end.
 
 Definition ts_copy_then_destroy (fixed : bool) (sr : Z) (n : nat) : M unit := fun s =>
-  match ts_copy_ctor fixed sr n s with
-  | ((t, Stuck), s1) => (Stuck, s1)
-  | ((t, o), s1) => match ts_pv_destroy t s1 with
-                    | (Val _, s2) => (o, s2)
-                    | (o', s2) => (o', s2)
-                    end
+  match p_alloc mgr crewsz s with
+  | (Val crew, s0) =>
+      match ts_copy_ctor fixed sr n s0 with
+      | ((t, Stuck), s1) => (Stuck, s1)
+      | ((t, o), s1) => match (ts_pv_destroy t ;;; p_dealloc mgr crew crewsz) s1 with
+                        | (Val _, s2) => (o, s2)
+                        | (o', s2) => (o', s2)
+                        end
+      end
+  | (Exc, s0) => (Exc, s0)
+  | (Stuck, s0) => (Stuck, s0)
   end.
 
 End Mechanisms.
